@@ -109,7 +109,9 @@ const D_MERKLE: usize = 34;
 const D_MERKLE_HEXBIN: usize = 35;
 const D_MERKLE_HEXSTR: usize = 36;
 const D_CODEC: usize = 37;
-const NDEC: usize = 38;
+const D_API_OUTPUT_PRINTABLE: usize = 38;
+const D_API_OUTPUT: usize = 39;
+const NDEC: usize = 40;
 
 const DECODERS: [&str; NDEC] = [
 	"MsgHeaderWrapper",
@@ -150,6 +152,8 @@ const DECODERS: [&str; NDEC] = [
 	"MerkleProof::from_hex(hex(bytes))",
 	"MerkleProof::from_hex(str)",
 	"Codec::read",
+	"api::OutputPrintable(json)",
+	"api::Output(json)",
 ];
 
 /// Decoder name used in violation signatures (the two from_hex drivers are one entry point).
@@ -1053,6 +1057,51 @@ fn build_corpus(seed: u64) -> Corpus {
 		"upper-case hex",
 		&RawBytes(mp1.to_hex().to_uppercase().into_bytes()),
 	);
+
+	// ---- API-facing JSON (hand-written Deserialize impls of the api crate): the valid document, and for every
+	// key the document without it, with null, and with a value of another JSON type
+	{
+		let op = grin_api::OutputPrintable {
+			output_type: grin_api::OutputType::Transaction,
+			commit: rnd_commit(&mut p),
+			spent: false,
+			proof: Some("0a0b0c".to_string()),
+			proof_hash: rnd_hash(&mut p).to_hex(),
+			block_height: Some(1234),
+			merkle_proof: Some(mp1.clone()),
+			mmr_index: 77,
+		};
+		let o = grin_api::Output::new(&rnd_commit(&mut p), 55, 66);
+		for (dec, doc) in [
+			(D_API_OUTPUT_PRINTABLE, serde_json::to_value(&op).expect("json")),
+			(D_API_OUTPUT, serde_json::to_value(&o).expect("json")),
+		] {
+			b.add(dec, 0, u32::MAX, true, "valid document", &RawBytes(doc.to_string().into_bytes()));
+			if let Some(obj) = doc.as_object() {
+				for k in obj.keys() {
+					let mut without = obj.clone();
+					without.remove(k);
+					b.add(dec, 0, u32::MAX, false, &format!("without key {}", k), &RawBytes(serde_json::Value::Object(without).to_string().into_bytes()));
+					for (what, v) in [
+						("null", serde_json::Value::Null),
+						("number", json!(7)),
+						("string", json!("zz")),
+						("array", json!([1, 2])),
+						("object", json!({"a": 1})),
+						("bool", json!(true)),
+					] {
+						let mut m = obj.clone();
+						m.insert(k.clone(), v);
+						b.add(dec, 0, u32::MAX, false, &format!("key {} = {}", k, what), &RawBytes(serde_json::Value::Object(m).to_string().into_bytes()));
+					}
+					let mut dup = doc.to_string();
+					dup.pop();
+					dup.push_str(&format!(",\"{}\":{}}}", k, obj[k]));
+					b.add(dec, 0, u32::MAX, false, &format!("key {} twice", k), &RawBytes(dup.into_bytes()));
+				}
+			}
+		}
+	}
 
 	// ---- segments
 	let out_segs = seg_family::<OutputIdentifier>(&mut b, &mut p, FX_OUT, D_SEG_OUT, true, &|p, i| {
@@ -2676,6 +2725,18 @@ fn exec_case(w: &WCtx, c: &Case, m: &mut Mon) {
 			});
 		}
 		D_CODEC => codec_case(m, w, c),
+		D_API_OUTPUT_PRINTABLE => {
+			let s = String::from_utf8_lossy(b).to_string();
+			m.stage("serde_json::from_str::<api::OutputPrintable>", true, || {
+				serde_json::from_str::<grin_api::OutputPrintable>(&s).map(|_| ()).map_err(|_| "deserialize".to_string())
+			});
+		}
+		D_API_OUTPUT => {
+			let s = String::from_utf8_lossy(b).to_string();
+			m.stage("serde_json::from_str::<api::Output>", true, || {
+				serde_json::from_str::<grin_api::Output>(&s).map(|_| ()).map_err(|_| "deserialize".to_string())
+			});
+		}
 		_ => {}
 	}
 }
